@@ -42,7 +42,7 @@ Inductive cop :=
 
 Definition set_cg g cs := mkC g (mstack cs) (stacktop cs) (chain cs).
 
-Definition capply (o : cop) (cs : cstate) : cstate :=
+Definition capply_gen (reset_before_error_return : bool) (o : cop) (cs : cstate) : cstate :=
   match o with
   | CMut o regs => set_cg (apply_op (with_stk o (scanned cs regs)) (cg cs)) cs
   | CPush ws => match chain cs with
@@ -57,7 +57,7 @@ Definition capply (o : cop) (cs : cstate) : cstate :=
       match chain cs with
       | [] =>      (* ismain: gc:setstacktop() ; minicoro.resume ; [on return] gc:setstacktop(0) *)
           if ok then mkC (cg cs) (mstack cs) (Some (length (mstack cs))) [c]
-          else if STACKTOP_RESET_BEFORE_ERROR_RETURN then mkC (cg cs) (mstack cs) None []
+          else if reset_before_error_return then mkC (cg cs) (mstack cs) None []
           else mkC (cg cs) (mstack cs) (Some (length (mstack cs))) []
       | r => if ok then mkC (cg cs) (mstack cs) (stacktop cs) (c :: r) else cs
       end
@@ -68,11 +68,15 @@ Definition capply (o : cop) (cs : cstate) : cstate :=
       | _ :: r => mkC (cg cs) (mstack cs) (stacktop cs) r
       end
   end.
+(* the code as it is: coroutine.resume resets gc.stacktop before its error return iff the scrape says so *)
+Definition capply := capply_gen STACKTOP_RESET_BEFORE_ERROR_RETURN.
+Definition crun_gen (b : bool) (h : list cop) (cs : cstate) : cstate := fold_left (fun cs o => capply_gen b o cs) h cs.
 Definition crun (h : list cop) (cs : cstate) : cstate := fold_left (fun cs o => capply o cs) h cs.
 
 Lemma stacktop_reset : STACKTOP_RESET_BEFORE_ERROR_RETURN = true. Proof. reflexivity. Qed.
-(* coroutine.create registers the whole coroutine block (desc.coro_size: header, storage AND stack):
-   the premise of coroutine_stack_kept that the coroutine's frames lie in the registered item's words *)
+(* coroutine.create registers the whole coroutine block (desc.coro_size: header, storage AND stack).
+   A tripwire only: no theorem depends on it; that the coroutine's frames are words of its item is a
+   PREMISE of coroutine_stack_kept ([In b (iwords itc)]), observed by the coroutine stream *)
 Lemma coro_registered_whole : CORO_REGISTERED_WITH_CORO_SIZE = true. Proof. reflexivity. Qed.
 
 (* gc.stacktop is zero whenever the main program runs, and names the whole main stack whenever a
@@ -89,7 +93,7 @@ Qed.
 
 Lemma cinv_capply o cs : cinv cs -> cinv (capply o cs).
 Proof.
-  intros (A & B & I & W). destruct o; cbn [capply].
+  intros (A & B & I & W). unfold capply. destruct o; cbn [capply_gen].
   - split; [exact A|]. split; [exact B|]. split; [now apply Inv_apply_op | now apply wl_apply_op].
   - destruct (chain cs) eqn:E; [|split; [rewrite E; exact A|]; split; [rewrite E; exact B|]; split; assumption].
     split; [cbn; auto|]. split; [cbn; congruence|]. split; assumption.
@@ -137,7 +141,7 @@ Lemma main_stack_kept h o regs a it : let cs := crun h cinit in
   (forall e, In e (log (cg (capply (CMut o regs) cs))) -> ev_addr e = a -> In e (log (cg cs))).
 Proof.
   intros cs HS NM NT IA L. pose proof (cinv_crun h cinit cinv_init) as CI. fold cs in CI.
-  destruct CI as (A & B & I & W). cbn [capply cg set_cg].
+  destruct CI as (A & B & I & W). unfold capply. cbn [capply_gen cg set_cg].
   apply every_op_safe_state; auto.
   - now rewrite op_moves_with_stk.
   - rewrite op_stk_with_stk by auto.
@@ -163,7 +167,7 @@ Lemma coroutine_stack_kept h o regs c itc b itb : let cs := crun h cinit in
   (forall e, In e (log (cg (capply (CMut o regs) cs))) -> ev_addr e = b -> In e (log (cg cs))).
 Proof.
   intros cs HS NM NT R Lc NS Ib Lb. pose proof (cinv_crun h cinit cinv_init) as CI. fold cs in CI.
-  destruct CI as (A & B & I & W). cbn [capply cg set_cg].
+  destruct CI as (A & B & I & W). unfold capply. cbn [capply_gen cg set_cg].
   apply every_op_safe_state; auto.
   - now rewrite op_moves_with_stk.
   - rewrite op_stk_with_stk by auto. eapply reach_step; eauto. eapply lookup_In_keys; eauto.
@@ -182,3 +186,14 @@ Proof. vm_compute. split; reflexivity. Qed.
 Lemma stacktop_discipline h : let cs := crun h cinit in
   (chain cs = [] -> stacktop cs = None) /\ (chain cs <> [] -> stacktop cs = Some (length (mstack cs))).
 Proof. destruct (cinv_crun h cinit cinv_init) as (A & B & _). auto. Qed.
+
+(* the reset before the error return is needed: under the other placement (return first, as in the
+   seeded change C10-B) a refused resume from the main program leaves gc.stacktop stale, the
+   discipline fails and a word pushed on the main stack afterwards is not scanned *)
+Lemma stacktop_reset_needed :
+  exists h w, let cs := crun_gen false h cinit in
+    chain cs = [] /\ stacktop cs <> None /\ In w (mstack cs) /\ ~ In w (scanned cs []).
+Proof.
+  exists [CResume 7 false; CPush [4096]], 4096. vm_compute.
+  split; [reflexivity|]. split; [discriminate|]. split; [now left | intros []].
+Qed.
